@@ -38,6 +38,12 @@ def fields_read(fn, recv):
     return {n.attr for n in walk_no_nested(fn.node) if isinstance(n, ast.Attribute) and dotted(n.value) == recv and isinstance(n.ctx, ast.Load)}
 
 
+def eval_test_open(t, atom):
+    """the scenario leaves the outcome of this test open"""
+    from ..typestate import eval_test, resolve_flags
+    return eval_test(t.ast, atom) is None
+
+
 def run(ctx):
     repo, cg = ctx.repo, ctx.cg
     sel = repo.fn(ST, 'SQLTranslator.construct_sql_ast')
@@ -285,6 +291,33 @@ def run(ctx):
     # hands out again for the same query (C05's alias rule, evaluated here as well)
     from .C05 import alias_rule
     alias_rule(ctx, 'C24-ALIAS')
+    # ---------------------------------------------------------------- LIMSUB
+    # "queries that iterate over a limited subquery": what the outer query adds (conditions, ordering, its own limit) applies to the *limited*
+    # rows.  process_query_qual may "extend" the previous translator (the outer query's conditions are then added to the previous WHERE, in
+    # front of the previous LIMIT); for a previous query that has a limit or an offset that is only sound behind some further test -- under the
+    # scenario "previous query limited, not aggregated, no left join" the extension must not be reached unconditionally.
+    pq = repo.fn('pony.orm.sqltranslation', 'SQLTranslator.process_query_qual'); gq_ = cg.cfg(pq)
+    ext = [x for x in gq_.nodes if x.kind == 'stmt' and isinstance(x.ast, ast.Raise) and x.ast.exc is not None and 'UseAnotherTranslator' in norm(x.ast.exc)]
+    ctx.need(ext, 'C24-LIMSUB: the extension of the previous translator (raise UseAnotherTranslator) was not found in process_query_qual')
+    def limited(text, node):
+        t_ = text.replace(' ', '')
+        if t_ in ('prev_limitisNone', 'prev_offsetisNone', 'prev_translator.limitisNone', 'prev_translator.offsetisNone'): return False
+        if t_ in ('prev_limitisnotNone', 'prev_offsetisnotNone', 'prev_translator.limitisnotNone', 'prev_translator.offsetisnotNone'): return True
+        if t_.endswith('.aggregated') or t_.endswith('.left_join'): return False
+        if t_ == 'try_extend_prev_query': return True
+        return None
+    from ..typestate import scenario_edges as _sel, eval_test, resolve_flags
+    eo_l = _sel(gq_, pq.node, limited, resolve=True)
+    live_l = gq_.reach([gq_.entry], edge_ok=eo_l)
+    for x in ext:
+        # reached, and by decided edges only?  (a test inside the `if try_extend_prev_query:` block whose outcome the scenario leaves open is a further guard)
+        blocks_ = [i_ for i_ in ast.walk(pq.node) if isinstance(i_, ast.If) and any(x.ast is y for y in ast.walk(i_)) and 'try_extend_prev_query' in norm(i_.test)]
+        inner_tests = [t for b_ in blocks_ for t in ast.walk(b_) if isinstance(t, (ast.If, ast.IfExp)) and t is not b_ and any(x.ast is y for y in ast.walk(t))]
+        open_guard = any(eval_test(resolve_flags(pq.node, t.test), limited) is None for t in inner_tests)
+        unconditional = x.id in live_l and bool(blocks_) and not open_guard
+        ctx.ob('C24-LIMSUB.a-limited-query-is-not-extended-unconditionally', pq, x.ast, not unconditional,
+               '' if not unconditional else 'process_query_qual extends a previous query that has a limit / offset: the conditions of the outer query are added to the WHERE in front of that '
+               'LIMIT, so `select(p for p in q.limit(5, offset=2) if p.age > 23)` filters first and limits afterwards', node=x.ast)
     # ---------------------------------------------------------------- ZERO
     # a limit is None (no limit) or a number, and 0 is a number ("no rows"): at the query / translator level every test on a limit is a comparison
     # (`is None`, `is not None`, `== 0`, ...).  A truthiness test treats limit 0 as "no limit": `p in q.limit(0)` then matches every row of q.
